@@ -66,13 +66,14 @@ type refGlyph struct {
 
 // RefResult is the verdict of the reference interpreter.
 type RefResult struct {
-	Kind     string // "ok", "err", "unspec"
+	Kind     string // "ok", "err", "unspec", "overbudget"
 	Class    string // error class for "err"
 	G        refGlyph
 	BigDelta bool // some path delta exceeds 32000 in magnitude
 	Ops      map[string]int
 	MaxDepth int
 	MaxStack int
+	Steps    int // operands and operators executed
 }
 
 func (g *refGlyph) String() string {
@@ -132,7 +133,15 @@ const (
 	stRet
 	stErr
 	stUnspec
+	stBudget
 )
+
+// MaxSteps is the implementation limit on the number of operands and
+// operators executed for one glyph (cff.maxT2Steps, through the hook).  The
+// specification has no such limit; programs above it are a separate class
+// (the implementation must reject them quickly instead of running for
+// fan-out^depth steps).
+var MaxSteps = 1 << 20
 
 type refVM struct {
 	stack          []int64
@@ -160,7 +169,7 @@ type refVM struct {
 func Reference(code []byte, subrs, gsubrs *Table, dflt, nom int64, clamp bool) *RefResult {
 	vm := &refVM{hopen: true, subrs: subrs, gsubrs: gsubrs, clamp: clamp, ops: map[string]int{}}
 	st := vm.run(code, 0)
-	res := &RefResult{BigDelta: vm.big, Ops: vm.ops, MaxDepth: vm.maxDepth, MaxStack: vm.maxStack}
+	res := &RefResult{BigDelta: vm.big, Ops: vm.ops, MaxDepth: vm.maxDepth, MaxStack: vm.maxStack, Steps: vm.steps}
 	switch st {
 	case stDone:
 		res.Kind = "ok"
@@ -171,6 +180,8 @@ func Reference(code []byte, subrs, gsubrs *Table, dflt, nom int64, clamp bool) *
 		res.G = refGlyph{width: w, hs: vm.hs, vs: vm.vs, cmds: vm.cmds}
 	case stUnspec:
 		res.Kind = "unspec"
+	case stBudget:
+		res.Kind = "overbudget"
 	case stErr:
 		res.Kind = "err"
 		res.Class = vm.errClass
@@ -296,6 +307,9 @@ func (vm *refVM) run(code []byte, depth int) refStatus {
 	pos := 0
 	for pos < len(code) {
 		vm.steps++
+		if vm.steps > MaxSteps {
+			return stBudget
+		}
 		b := code[pos]
 		var v int64
 		isNum := true
